@@ -780,6 +780,9 @@ def run(prog, rep):
         rep.attempt(rule, ct, rep)
     # the accessors are computed from the in-memory table, re-read from disk on every (implicit) context: they report the live
     # blocks only if every table change is also written to its slot (C10's pairing, a necessary condition here)
+    # a freed slot that points anywhere but the end of the data makes the next add overwrite the table or a live block: the set of
+    # live blocks a re-read reports is then not the set the session reported
+    rep.attempt(lambda: M.offset_provenance(ct, rep))
     rep.attempt(M.dirty_entry, ct, rep, rule="table-pairing")
     rep.attempt(M.slot_position, ct, rep, rule="table-pairing/slot")
     rep.attempt(M.parse_on_enter, ct, rep)
